@@ -400,10 +400,8 @@ ext_rt!(c09_ext_supported_groups, 2);
 #[kani::unwind(8)]
 fn c09_extension_list_round_trip() {
     let t: u8 = kani::any();
-    let mut l = Vec::with_capacity(2);
-    l.push(X::MaxFragmentLength(t));
-    l.push(X::MaxFragmentLength(t ^ 1));
-    let l = ManuallyDrop::new(l);
+    // a stack array (a heap-resident list would make the serializer's `match` on each element symbolic)
+    let l = ManuallyDrop::new([X::MaxFragmentLength(t), X::MaxFragmentLength(t ^ 1)]);
     let out = ManuallyDrop::new(gen_simple(tp::gen_tls_extensions(&l[..]), Vec::new()));
     let b = ok_bytes!(out, "C09.extlist");
     vassert!(b.len() == 2 + 5 + 5 && be16(b, 0) as usize == b.len() - 2, "C09.extlist.u16_length_is_block_length");
